@@ -1894,6 +1894,56 @@ func ruleC18Record(cx *Ctx) {
 		}
 		cx.R.Check(ok && n > 0, rule, "(*policy)."+m, "records the key exactly once on every path", cx.P.Pos(fn.Pos()), "sketch.increment(n.Key()) runs once on every returning path of "+m, wit...)
 	}
+	// a recording is never followed by the (re)allocation of the table it went into: ensureCapacity - which enables
+	// tracking or replaces the table by a larger, empty one - precedes the recording of the arrival on every path
+	if ens, add := cx.P.Func("", "sketch", "ensureCapacity"), cx.P.Func("", "policy", "add"); ens != nil && add != nil {
+		type site struct {
+			in  ssa.Instruction
+			idx int
+		}
+		var incs, enss []site
+		performs := func(in ssa.Instruction, target *ssa.Function) bool {
+			if isCallTo(in, target) {
+				return true
+			}
+			if c := calleeOf(in); c != nil && len(c.Blocks) > 0 && c.Pkg != nil && strings.HasPrefix(c.Pkg.Pkg.Path(), modPath) {
+				ok, _ := reachesInstr(c, func(x ssa.Instruction) bool { return isCallTo(x, target) }, map[*ssa.Function]bool{}, nil)
+				return ok
+			}
+			return false
+		}
+		for _, b := range add.Blocks {
+			for i, in := range b.Instrs {
+				if _, isCall := in.(ssa.CallInstruction); !isCall {
+					continue
+				}
+				if performs(in, inc) {
+					incs = append(incs, site{in, i})
+				}
+				if performs(in, ens) {
+					enss = append(enss, site{in, i})
+				}
+			}
+		}
+		bad := ""
+		for _, a := range incs {
+			for _, e := range enss {
+				if a.in == e.in {
+					continue
+				}
+				after := false
+				if a.in.Block() == e.in.Block() {
+					after = e.idx > a.idx
+				} else {
+					after = blockReaches(a.in.Block(), e.in.Block())
+				}
+				if after {
+					bad = cx.P.where(e.in)
+				}
+			}
+		}
+		cx.R.Check(bad == "" && len(incs) > 0, rule, "(*policy).add", "capacity ensured before the arrival is recorded", cx.P.Pos(add.Pos()), "no path of add reaches sketch.ensureCapacity after it recorded the arrival (the recording would go into a disabled table or one about to be replaced) "+bad)
+	}
 	// the drained read reaches policy.access under withEviction
 	acc := cx.P.Func("", "policy", "access")
 	oa := cx.need(rule, "", "cache", "onAccess")
